@@ -122,6 +122,24 @@ func (c *Conn) Drain(d time.Duration) []byte {
 	return c.buf
 }
 
+// DrainClosed reads until the peer closes the connection (EOF or reset) or d has passed; closed tells which.
+func (c *Conn) DrainClosed(d time.Duration) (data []byte, closed bool) {
+	tmp := make([]byte, 64*1024)
+	c.C.SetReadDeadline(time.Now().Add(d))
+	for {
+		n, err := c.C.Read(tmp)
+		if n > 0 {
+			c.buf = append(c.buf, tmp[:n]...)
+		}
+		if err != nil {
+			if ne, ok := err.(net.Error); ok && ne.Timeout() {
+				return c.buf, false
+			}
+			return c.buf, true
+		}
+	}
+}
+
 // Do sends one command and reads its reply.
 func (c *Conn) Do(argv ...string) (Value, error) {
 	if c.stalled {
